@@ -58,7 +58,7 @@ def pick(behs, rnd, limit, want=None):
 
 def model_check(ctx, th):
     mc = ctx.tlc("DiskCacheMC", heap=HEAP, cfg="DiskCache_mc_big.cfg" if th else "DiskCache_mc.cfg",
-                 timeout=6000 if th else 3000, coverage=th,
+                 timeout=6000 if th else 3000,
                  constants=dict(CONSTS, RotateSize=45, Shards=2, Lens=[0, 3], TearKs="0..23", MaxOps=6 if th else 5))
     ctx.require_model_ok(mc, "DiskCache invariants")
     if th:
